@@ -7,8 +7,9 @@ SPEC = dict(
     corr=[('check-cases', 4, 16, ['-n', '40', '-na', '40', '-profile', 'pure'], ('_dc', '_acc')),
           ('check-cases', 2, 8, ['-n', '40', '-na', '0', '-profile', 'all'], ('_dc', '_acc'))],
     oracles=[('check-oracle',
-              [['-n', '120', '-seed', '{seed}', '-profile', 'pure', '-shrinkms', '200'] for _ in range(3)] +
-              [['-n', '120', '-seed', '{seed}', '-profile', 'all', '-shrinkms', '200'] for _ in range(3)],
+              [['-n', '150', '-seed', '{seed}', '-profile', 'pure', '-shrinkus', us] for us in ('50', '100', '150', '200', '300', '500', '800')] +
+              [['-n', '100', '-seed', '{seed}', '-profile', 'pure', '-shrinkms', ms] for ms in ('3', '100')] +
+              [['-n', '100', '-seed', '{seed}', '-profile', p, '-shrinkms', ms] for p, ms in (('all', '2'), ('all', '30'), ('cleanups', '5'))],
               [['-n', '500', '-seed', '{seed}', '-profile', 'pure', '-shrinkms', '1000'] for _ in range(8)] +
               [['-n', '500', '-seed', '{seed}', '-profile', 'all', '-shrinkms', '1000'] for _ in range(8)])],
     oracle_props=['C01'],
